@@ -242,3 +242,106 @@ func VH_C05_ReadOffsets() {
 	vassert(vtextOf(r.Items[1]) == "b", "C05 read: following cue intact")
 	vreach("end")
 }
+
+// C05 H6: open subtitling, one TTI block whose text field holds n symbolic bytes over letters, space, the six
+// italic/underline/boxing codes' representatives and the row separator: rows split at the separator; within a row a
+// run ends at every style code that follows text; every run carries the state of all three attributes accumulated
+// since the start of its row (unset / on / off), blank runs are dropped.
+func VH_C05_ReadStyleCodes() {
+	n := vbound("textbytes", 4, 5)
+	s := NewSubtitles()
+	s.Metadata = &Metadata{Framerate: 25, STLDisplayStandardCode: "0"}
+	s.Items = append(s.Items, &Item{StartAt: time.Second, EndAt: 2 * time.Second, Lines: []Line{{Items: []LineItem{{Text: "x"}}}}})
+	var buf bytes.Buffer
+	vassert(s.WriteToSTL(&buf) == nil, "C05 fixture written")
+	d := buf.Bytes()
+	text := make([]byte, n)
+	for i := range text {
+		text[i] = nondetByteIn("ab \x80\x81\x82\x84\x85\x8a")
+		d[1024+16+i] = text[i]
+	}
+	for i := 1024 + 16 + n; i < 1024+128; i++ {
+		d[i] = 0x8f
+	}
+	vreach("pre")
+	r, err := ReadFromSTL(bytes.NewReader(d), STLOptions{})
+	vassert(err == nil && len(r.Items) == 1, "C05 style codes: readable, one cue")
+	if err != nil || len(r.Items) != 1 {
+		return
+	}
+	// specification
+	type run struct {
+		text          string
+		ital, und, bx int // 0 unset, 1 on, 2 off
+	}
+	var rows [][]run
+	var cur []run
+	var t string
+	ital, und, bx := 0, 0, 0
+	flush := func() {
+		if vtrimSpaces(t) != "" {
+			cur = append(cur, run{vtrimSpaces(t), ital, und, bx})
+		}
+		t = ""
+	}
+	endRow := func() {
+		flush()
+		if len(cur) > 0 {
+			rows = append(rows, cur)
+		}
+		cur, ital, und, bx = nil, 0, 0, 0
+	}
+	for _, c := range text {
+		switch c {
+		case 0x8a:
+			endRow()
+		case 0x80, 0x81, 0x82, 0x84, 0x85:
+			flush()
+			switch c {
+			case 0x80:
+				ital = 1
+			case 0x81:
+				ital = 2
+			case 0x82:
+				und = 1
+			case 0x84:
+				bx = 1
+			case 0x85:
+				bx = 2
+			}
+		default:
+			t += string([]byte{c})
+		}
+	}
+	endRow()
+	tri := func(p *bool) int {
+		if p == nil {
+			return 0
+		}
+		if *p {
+			return 1
+		}
+		return 2
+	}
+	it := r.Items[0]
+	vassert(len(it.Lines) == len(rows), "C05 style codes: rows split at the line-break code, empty rows dropped")
+	for l := range rows {
+		if l >= len(it.Lines) {
+			break
+		}
+		vassert(len(it.Lines[l].Items) == len(rows[l]), "C05 style codes: a run ends at every style code that follows text")
+		for k, w := range rows[l] {
+			if k >= len(it.Lines[l].Items) {
+				break
+			}
+			li := it.Lines[l].Items[k]
+			vassert(li.Text == w.text, "C05 style codes: text of the run")
+			vassert(li.InlineStyle != nil, "C05 style codes: run has attributes")
+			if li.InlineStyle != nil {
+				vassert(tri(li.InlineStyle.STLItalics) == w.ital && tri(li.InlineStyle.STLUnderline) == w.und && tri(li.InlineStyle.STLBoxing) == w.bx,
+					"C05 style codes: every run carries the italic, underline and boxing state accumulated in its row")
+			}
+		}
+	}
+	vreach("end")
+}
